@@ -159,6 +159,10 @@ def run(ctx):
                 ctx.violation("R04.2", key, "%s recognises a keyword by comparing the raw token text with the keyword's upper-case spelling: `EndExt` / `endext` are not recognised (LEF keywords are case-insensitive)" % f.short, b.site(bi), key)
     ctx.count("keyword_text_comparisons", n_cmp)
 
+    # ---- R04.8 header statements are read in exactly the versions the writer may write them in (C05's gate rule)
+    ctx.rule("R04.8", "statements whose legality depends on the LEF version are gated by the same comparison in reader and writer (NAMESCASESENSITIVE and MACRO SOURCE up to and including 5.4)")
+    from rules import C05 as c05_
+    c05_.rule_version_gates(ctx, "R04.8")
     # ---- R04.3 exact decimals
     nums = [f for f in parsers if (payload_ty(f.output) or {}).get("s", "").endswith("Decimal") and len(f.inputs) == 1]
     if not nums:
@@ -174,6 +178,18 @@ def run(ctx):
             ctx.violation("R04.3", key, "%s routes the number through floating point (%s): the decimal written is not kept exactly" % (f.short, bad), "%s:%d" % (f.sp[0], f.sp[1]))
         else:
             ctx.ok("R04.3", key, "Decimal::from_str(token text)")
+        # the text handed to from_str is the token's own text: not a trimmed, stripped, replaced or re-formatted copy
+        from rules import lefrules as lr_
+        fb = Body(f)
+        edits = []
+        for bi, t in fb.calls():
+            nm = callee_name(t) or ""
+            if lr_.LOSSY_TEXT.search(nm) or re.search(r"alloc::fmt::format$|fmt::format$|String::(push|push_str|insert|insert_str|remove|truncate|pop|drain|replace_range)$|::concat$|::join$", nm):
+                edits.append((bi, nm.split("::")[-1]))
+        if edits:
+            ctx.violation("R04.3", key + "/text-edited", "%s edits the number's text (%s) before converting it: some spelling of a number (a sign with a bare leading dot, trailing zeros, an exponent) is converted to a different value" % (f.short, ", ".join(sorted({e[1] for e in edits}))), fb.site(edits[0][0]), key + "/text-edited")
+        else:
+            ctx.ok("R04.3", key + "/text-verbatim", "token text converted as written")
     n_mant = 0
     for f in F.fns.values():
         if not f.id.startswith("lef21::"):
